@@ -103,6 +103,10 @@ impl<C: Suite> Model for M11<C> {
                 for len in [5usize, 33] {
                     v.push(St { s, k, len, base: true, devs: vec![] });
                 }
+                if k == 0 {
+                    // 64 KiB base: selected positions only (ends and middle of v, truncation, extension)
+                    v.push(St { s, k, len: 65536, base: true, devs: vec![] });
+                }
             }
         }
         v
@@ -118,11 +122,34 @@ impl<C: Suite> Model for M11<C> {
             }
             let (ct, _) = self.seal(st);
             let ser = Vec::<u8>::from(&ct);
-            for i in 0..ser.len() * 8 {
-                a.push(Dev::BitFlip(i));
-            }
-            for l in 0..ct.v.len() {
-                a.push(Dev::TruncV(l));
+            if st.len > 1000 {
+                let (vs, ve, so) = Self::regions(&ct);
+                let mut bytes: Vec<usize> = vec![0, vs - 1, vs, vs + 1, vs + 2, vs + 3, (vs + ve) / 2, ve - 2, ve - 1, ve, so - 1, so];
+                for off in [65535usize, 65536, 65537, 32768, 16384] {
+                    for d in [0usize, 1] {
+                        if vs + off + d < ve {
+                            bytes.push(vs + off - d);
+                            bytes.push(ve - 1 - (off % 7) - d * 40);
+                        }
+                    }
+                }
+                bytes.sort();
+                bytes.dedup();
+                for b in bytes {
+                    a.push(Dev::BitFlip(b * 8));
+                    a.push(Dev::BitFlip(b * 8 + 7));
+                }
+                let n = ct.v.len();
+                for l in [0, 1, n / 2, n - 17, n - 2, n - 1] {
+                    a.push(Dev::TruncV(l));
+                }
+            } else {
+                for i in 0..ser.len() * 8 {
+                    a.push(Dev::BitFlip(i));
+                }
+                for l in 0..ct.v.len() {
+                    a.push(Dev::TruncV(l));
+                }
             }
             a.push(Dev::ExtV(0x00));
             a.push(Dev::ExtV(0xFF));
